@@ -221,8 +221,10 @@ func (vc *VC) enterLoop(li *LoopInfo, pre *State) *State {
 		h.heap[n] = c
 	}
 	al := vc.fresh("alloc", "Int")
-	for n, c := range li.hdrHeap {
-		vc.refBound(n, c, al)
+	for _, n := range vc.arrayOrd {
+		if c, ok := li.hdrHeap[n]; ok {
+			vc.refBound(n, c, al)
+		}
 	}
 	h.alloc = al
 	h.assume(vc, Ge(al, pre.alloc))
